@@ -190,10 +190,14 @@ def keep_alive(chk):
     ok3 = True
     for ext in (".yaml", ".yml", ".py", ".txt", "", ".pyc", ".json"):
 
+        def is_ext(t):
+            """the extension of the configuration path: splitext(p)[1], `_, ext = splitext(p)`, Path(p).suffix"""
+            return (t[0] in ("sub", "proj") and "splitext" in show(t)) or (t[0] == "attr" and t[2] == "suffix")
+
         def decide(it, path, term, ext=ext):
-            if term[0] == "cmp" and term[1] in ("==", "!=") and term[3][0] == "sub" and "splitext" in show(term[3]) and term[2][0] == "const":
+            if term[0] == "cmp" and term[1] in ("==", "!=") and is_ext(term[3]) and term[2][0] == "const":
                 term = ("cmp", term[1], term[3], term[2])
-            if term[0] == "cmp" and term[2][0] == "sub" and "splitext" in show(term[2]):
+            if term[0] == "cmp" and is_ext(term[2]):
                 if term[1] == "in" and term[3][0] in ("tuple", "list", "set"):
                     return ext in [x[1] for x in term[3][1] if x[0] == "const"]
                 if term[1] == "==" and term[3][0] == "const":
